@@ -446,7 +446,8 @@ func runC01(c *Ctx) {
 		{"group limit is not an integer", pgr, has(`"limit"`, "intTag"), "cannot unmarshal into int"},
 		{"group labels is not a mapping", pgr, has(`"labels"`, "mapTag"), "cannot unmarshal into map[string]string"},
 		{"group labels: non-string value or duplicated key", pgr, has(`"labels"`, "!(flag)", "init:validateStringMap("), "yaml: mapping key already defined / cannot unmarshal"},
-		{"group label name invalid (incl. __name__)", pgr, has(`"labels"`, ".IsValid()", "MetricNameLabel"), "invalid label name"},
+		{"group label name invalid", pgr, has(`"labels"`, "LabelName(", ".IsValid()"), "invalid label name"},
+		{"group label name is __name__", pgr, has(`"labels"`, "MetricNameLabel"), "invalid label name"},
 		{"group label value invalid", pgr, has(`"labels"`, "LabelValue(", ".IsValid()"), "invalid label value"},
 		{"group rules is not a list", pgr, has(`"rules"`, "seqTag"), "cannot unmarshal into []Rule"},
 		{"duplicated group key", pgr, has("init:set[entry.key.Value]"), "yaml: mapping key already defined"},
@@ -467,7 +468,8 @@ func runC01(c *Ctx) {
 		{"braces in recording rule name", pr, func(g string) bool {
 			return strings.Contains(g, "recordPart") && (strings.Contains(g, `"{}"`) || strings.Contains(g, `"{"`))
 		}, "braces present in the recording rule name"},
-		{"invalid rule label name (incl. __name__)", pr, has("LabelName(lab.Key.Value).IsValid()", "MetricNameLabel"), "invalid label name"},
+		{"invalid rule label name", pr, has("LabelName(lab.Key.Value).IsValid()"), "invalid label name"},
+		{"rule label name is __name__", pr, has("lab.Key.Value", "MetricNameLabel"), "invalid label name"},
 		{"invalid rule label value", pr, has("LabelValue(lab.Value.Value).IsValid()"), "invalid label value"},
 		{"invalid annotation name", pr, has("LabelName(ann.Key.Value).IsValid()"), "invalid annotation name"},
 	}
